@@ -2,6 +2,7 @@ package interp
 
 import (
 	"fmt"
+	"os"
 	"go/types"
 	"strconv"
 
@@ -14,9 +15,10 @@ import (
 
 type dbHandle struct{ st *Store }
 type txHandle struct {
-	st   *Store
-	done bool
-	seq  int
+	st    *Store
+	done  bool
+	seq   int
+	layer *storeLayer // nil until the first write (SQLite's deferred BEGIN)
 }
 type stmtHandle struct {
 	st   *Store
@@ -137,14 +139,42 @@ func (in *Interp) bindOne(iv IfaceVal) (Value, Value) {
 	return nil, nil
 }
 
+// layerFor: the layer a statement of this handle READS. A transaction that has not written
+// yet (deferred BEGIN) reads the committed state.
 func (in *Interp) layerFor(st *Store, tx *txHandle) *storeLayer {
 	if tx != nil {
-		if tx.done || st.pending == nil {
+		if tx.done {
 			panic(sqlErr{"sql: transaction has already been committed or rolled back"})
 		}
-		return st.pending
+		if tx.layer != nil {
+			return tx.layer
+		}
 	}
 	return st.committed
+}
+
+// writeLayerFor: the layer a statement of this handle WRITES. SQLite has one writer: the first
+// write of a transaction takes the write lock; anybody else who wants to write meanwhile gets
+// "database is locked".
+func (in *Interp) writeLayerFor(st *Store, tx *txHandle) *storeLayer {
+	if tx == nil {
+		if st.writer != nil {
+			in.monitor["db-write-during-tx"]++
+			panic(sqlErr{"database is locked"})
+		}
+		return st.committed
+	}
+	if tx.done {
+		panic(sqlErr{"sql: transaction has already been committed or rolled back"})
+	}
+	if tx.layer == nil {
+		if st.writer != nil && st.writer != tx {
+			panic(sqlErr{"database is locked"})
+		}
+		tx.layer = st.committed.clone()
+		st.writer = tx
+	}
+	return tx.layer
 }
 
 // execScript runs a script atomically per statement; returns (result, error value).
@@ -162,15 +192,16 @@ func (in *Interp) execScript(st *Store, tx *txHandle, text string, params []Valu
 			panic(r)
 		}
 	}()
-	layer := in.layerFor(st, tx)
-	if tx == nil && st.pending != nil {
-		for _, s := range stmts {
-			if s.k != "select" && s.k != "skip" {
+	for _, s := range stmts {
+		var layer *storeLayer
+		if s.k == "select" || s.k == "skip" {
+			layer = in.layerFor(st, tx)
+		} else {
+			if tx == nil && len(st.open) > 0 {
 				in.monitor["db-write-during-tx"]++
 			}
+			layer = in.writeLayerFor(st, tx)
 		}
-	}
-	for _, s := range stmts {
 		var backup map[string]*sqlTable
 		if s.k == "insert" || s.k == "update" || s.k == "delete" {
 			backup = map[string]*sqlTable{s.table: nil}
@@ -405,12 +436,10 @@ func registerSQL(ex *Explorer) {
 		if e, hit := in.dbFault("Begin"); hit {
 			return TupleVal{(*Cell)(nil), e}
 		}
-		if st.pending != nil {
-			in.fail("unsupported", "second concurrent write transaction (SQLite would block)")
-		}
-		st.pending = st.committed.clone()
 		st.txSeq++
-		return TupleVal{in.newHandle("Tx", &txHandle{st: st, seq: st.txSeq}), IfaceVal{}}
+		th := &txHandle{st: st, seq: st.txSeq}
+		st.open = append(st.open, th)
+		return TupleVal{in.newHandle("Tx", th), IfaceVal{}}
 	}
 	reg(begin, "(*database/sql.DB).Begin", "(*database/sql.DB).BeginTx")
 	I["(*database/sql.Tx).Commit"] = func(in *Interp, fn *ssa.Function, a []Value) Value {
@@ -420,13 +449,13 @@ func registerSQL(ex *Explorer) {
 		}
 		if e, hit := in.dbFault("Commit"); hit {
 			// a failed COMMIT leaves nothing applied (go-sqlite3 rolls back); database/sql marks the tx done
-			tx.done = true
-			st.pending = nil
+			st.finish(tx)
 			return e
 		}
-		tx.done = true
-		st.committed = st.pending
-		st.pending = nil
+		if tx.layer != nil {
+			st.committed = tx.layer
+		}
+		st.finish(tx)
 		in.monitor["commits"]++
 		return IfaceVal{}
 	}
@@ -435,8 +464,7 @@ func registerSQL(ex *Explorer) {
 		if tx.done {
 			return in.sentinelError("database/sql.ErrTxDone")
 		}
-		tx.done = true
-		st.pending = nil
+		st.finish(tx)
 		in.monitor["rollbacks"]++
 		return IfaceVal{}
 	}
@@ -682,18 +710,18 @@ func (in *Interp) sameLayer(a, b *storeLayer, ignore map[string]bool) *sym.Term 
 		}
 		tb, ok := b.tables[n]
 		if !ok || len(ta.rows) != len(tb.rows) {
-			return f.False
+			return sameDiff(f, 1)
 		}
 		for i, ra := range ta.rows {
 			rb := tb.rows[i]
 			if ra.rowid != rb.rowid || len(ra.vals) != len(rb.vals) {
-				return f.False
+				return sameDiff(f, 2)
 			}
 			for k := range ra.vals {
 				va, vb := ra.vals[k], rb.vals[k]
 				if va == nil || vb == nil {
 					if va != nil || vb != nil {
-						return f.False
+						return sameDiff(f, 3)
 					}
 					continue
 				}
@@ -701,33 +729,45 @@ func (in *Interp) sameLayer(a, b *storeLayer, ignore map[string]bool) *sym.Term 
 				sb, bBlob := vb.(SliceVal)
 				if aBlob || bBlob {
 					if !aBlob || !bBlob {
-						return f.False
+						return sameDiff(f, 4)
 					}
 					ba, _ := sa.Ext.(*blob)
 					bb, _ := sb.Ext.(*blob)
 					if ba == nil || bb == nil || ba.kind != bb.kind {
-						return f.False
+						return sameDiff(f, 5)
 					}
-					if ba.ser == bb.ser {
-						continue
+					if ba.typ == nil || bb.typ == nil || !types.Identical(ba.typ, bb.typ) {
+						return sameDiff(f, 9)
 					}
-					if ba.typ == nil || bb.typ == nil || !types.Identical(ba.typ, bb.typ) || ba.val == nil || bb.val == nil {
-						return f.False
+					bc := in.blobEqual(ba, bb)
+					if os.Getenv("GOSYM_DIFF") != "" && bc != in.F.True {
+						fmt.Fprintf(os.Stderr, "sameLayer: %s row %d col %s blob %s: %v\n", n, i, ta.cols[k].name, ba.typ, bc)
 					}
-					cs = append(cs, in.valuesEqual(ba.val, bb.val, ba.typ))
+					cs = append(cs, bc)
 					continue
 				}
 				c := env.compare("=", va, vb)
+				if os.Getenv("GOSYM_DIFF") != "" && c.(*sym.Term) != in.F.True {
+					fmt.Fprintf(os.Stderr, "sameLayer: %s row %d col %s: %v vs %v\n", n, i, ta.cols[k].name, va, vb)
+				}
 				cs = append(cs, c.(*sym.Term))
 			}
 		}
 	}
 	for n := range b.tables {
 		if _, ok := a.tables[n]; !ok && !ignore[n] {
-			return f.False
+			return sameDiff(f, 7)
 		}
 	}
 	return f.And(cs...)
+}
+
+
+func sameDiff(f *sym.Factory, n int) *sym.Term {
+	if os.Getenv("GOSYM_DIFF") != "" {
+		fmt.Fprintf(os.Stderr, "sameLayer: structural difference #%d\n", n)
+	}
+	return f.False
 }
 
 func registerSnapshots(ex *Explorer) {
